@@ -544,7 +544,9 @@ impl<'a> Ctx<'a> {
     }
 
     fn repeat_of(&mut self, child: Node) -> Node {
-        let (lo, hi) = match self.rng.below(9) {
+        let (lo, hi) = match self.rng.below(10) {
+            // now and then a large counted repeat: many alternatives alive on a short text
+            9 => (self.rng.range(0, 2), Some(*self.rng.pick(&[12usize, 40]))),
             0 | 1 => (0, None),
             2 | 3 => (1, None),
             4 => (0, Some(1)),
@@ -823,9 +825,33 @@ impl<'a> Ctx<'a> {
     }
 
     /// A body for an unbounded repeat whose emptiness is what the loop lowering depends on.
+    /// a nullable expression that the VM has to run itself (it contains a look-around)
+    fn hard_nullable(&mut self) -> Node {
+        let la = Node::Look { child: Box::new(self.atom_simple()), ahead: true, neg: self.rng.chance(1, 3) };
+        let opt = Node::Repeat { child: Box::new(self.atom_simple()), lo: 0, hi: Some(1), kind: Kind::Greedy };
+        if self.rng.chance(1, 2) {
+            Node::Concat(vec![la, opt])
+        } else {
+            Node::Alt(vec![Node::Concat(vec![la, self.atom_simple()]), Node::Empty])
+        }
+    }
+
     fn loop_body(&mut self, depth: usize) -> Node {
         for _ in 0..6 {
-            match self.rng.below(10) {
+            match self.rng.below(11) {
+                10 if self.cfg.allow_look => {
+                    // a guarded loop inside a look-around inside the loop: `(?=(?:(?=a)a?)*)b?`
+                    let inner_body = self.hard_nullable();
+                    let inner = Node::Repeat {
+                        child: Box::new(inner_body),
+                        lo: self.rng.range(0, 1),
+                        hi: None,
+                        kind: if self.rng.chance(1, 3) { Kind::Lazy } else { Kind::Greedy },
+                    };
+                    let la = Node::Look { child: Box::new(inner), ahead: true, neg: false };
+                    let rest = self.nullable(depth);
+                    return Node::Concat(vec![la, rest]);
+                }
                 0 | 1 if !self.closed.is_empty() && self.named.is_empty() => {
                     return Node::Backref(*self.rng.pick(&self.closed));
                 }
